@@ -1,7 +1,7 @@
 (* C08 -- an inode stays valid exactly as long as the client holds lookup references to it.
    Only statements, closed by [exact]; proofs live in Proofs/Inodes*.v. *)
 From Coq Require Import List NArith Bool.
-From FB Require Import Model.Inodes Proofs.Inodes Proofs.InodesNum.
+From FB Require Import Model.Inodes Proofs.Inodes Proofs.InodesNum Proofs.InodesHost.
 Import ListNotations.
 Local Open Scope N_scope.
 
@@ -93,6 +93,30 @@ Theorem C08_lookup_returns_bound_number_partial : forall c s t s' i j,
   get_inode_locked s' (t_id t) (eff_fh c t) = Some j.
 Proof. exact lookup_returns_bound_number. Qed.
 
+(* ---- use_host_ino modes (number = unique_id << 47 | host ino).  Host hypotheses ([hist_host]): every host
+   inode number of the export is <= MAX_HOST_INO (virtual numbers for larger ones are modelled but not covered),
+   in handle mode every file yields a file handle and the host does not reuse the inode number of a file that
+   is still referenced under another handle ([no_reuse]; automatic without handles: C08_no_reuse_nohandle). *)
+Theorem C08_hostino_fresh : forall c s t,
+  uhi c = true -> HI s -> KInv c s -> small_t t -> wf_t c t -> no_reuse c s t -> fresh_alloc c s t.
+Proof. exact hostino_fresh. Qed.
+Theorem C08_hostino_step : forall c s o, uhi c = true -> HInvs c s -> op_host c s o ->
+  op_fresh c s o /\ HInvs c (snd (step c s o)).
+Proof. exact step_host. Qed.
+Theorem C08_no_reuse_nohandle : forall c s t, ifh c = false -> IFh c s -> no_reuse c s t.
+Proof. exact no_reuse_nohandle. Qed.
+Theorem C08_history_hostino : forall c root h,
+  uhi c = true -> wf_t c root -> hist_host c (fresh c root) h -> 2 + total_allocs h < U64MAX ->
+  let r := run c (fresh c root) h in
+  I1 (snd r) /\ IRoot (snd r) /\ ~ In RSpin (fst r) /\
+  forall j, j <> ROOT_ID -> refs_of (snd r) j = spec_run (refs_of (fresh c root)) h (fst r) j.
+Proof. exact run_refines_hostino. Qed.
+Example C08_hostino_nonvacuous :
+  hist_host hi_cfg (fresh hi_cfg d9_root) hi_hist /\
+  fst (run hi_cfg (fresh hi_cfg d9_root) hi_hist) =
+    [RIno 140737488355430; RUnit; RIno 140737488355430; RErr EBADF; REnts [(140737488355430, true); (140737488355429, false)]].
+Proof. exact hi_hist_ok. Qed.
+
 (* witnesses / non-vacuity *)
 Example C08_d9_fixed_witness :
   fst (run d9_cfg (fresh d9_cfg d9_root) d9_hist) = [RErr EBADF] /\
@@ -125,3 +149,7 @@ Print Assumptions C08_one_number_per_identity.
 Print Assumptions C08_stable_lookup_partial.
 Print Assumptions C08_stable_forget_partial.
 Print Assumptions C08_lookup_returns_bound_number_partial.
+Print Assumptions C08_hostino_fresh.
+Print Assumptions C08_hostino_step.
+Print Assumptions C08_no_reuse_nohandle.
+Print Assumptions C08_history_hostino.
